@@ -18,5 +18,6 @@ INVARIANT DerivedFromDefault
 INVARIANT UnenforcedOptionsAreHints
 INVARIANT NoneDefaultNeedsASchema
 INVARIANT ModifiersMerge
+INVARIANT ContributedOptionsAreEnforced
 INVARIANT NoModifiersNoChange
 CHECK_DEADLOCK FALSE
